@@ -117,7 +117,10 @@ pub fn gen_ustr(t: &mut Tape, ucs2: bool, units: Option<usize>, max: usize) -> U
     if ucs2 && n == 0 {
         stray_one = false;
     }
-    UStr { units: v, ucs2, stray_one, trailing_nul: n > 0 || t.draw(DATA, 2) == 0 }
+    // an empty UCS-2 string is always sent with its NUL unit (0x81 00 00): a bare 0x80 followed by a
+    // byte 0x01 of the next field would be indistinguishable from the stray-0x01 quirk
+    let trailing_nul = n > 0 || ucs2 || t.draw(DATA, 2) == 0;
+    UStr { units: v, ucs2, stray_one, trailing_nul }
 }
 
 fn gen_any(t: &mut Tape, max_latin: usize) -> UStr {
